@@ -394,6 +394,60 @@ def gen_cases(tier, rng):
                 c.expect = {"verdict": True, "V": ",".join(
                     ("%dE" % (-1 if ch[1] == 2 else ch[1]) if ch[0] == 0 else "1T") for ch in chunks)}
                 cases.append(c)
+    # ---- (I) boundaries over the whole RFC 2046 bchars alphabet with 0..8 ERE metacharacters ( ) + . ?
+    named = [b"v1.2.3_build.7", b"==(7+7)==", b"what?.really?", b"192.168.1.20:8080/part", b"f(x)=x+1", b"((((....++++????))))",
+             b"'()+_,-./:=?", b"a b c", b"....", b"+", b"(.)(.)(.)(.)"]
+    plainch = b"0123456789abcdefghijklmnopqrstuvwxyzABCDEFGHIJKLMNOPQRSTUVWXYZ'_,-/:="
+    gen = []
+    for nmeta in range(0, 9):
+        for _ in range(2 if not thorough else 8):
+            n = rng.randrange(max(1, nmeta), 71)
+            bb = [rng.choice(plainch) for _ in range(n - nmeta)] + [rng.choice(b"().+?") for _ in range(nmeta)]
+            rng.shuffle(bb)
+            gen.append(bytes(bb))
+    chunks = [(9, 0, 11), (14, 1, 12), (6, 0, 13), (11, 0, 14)]
+    ridx, _ = auto_ridx(chunks, 40)
+    for b in named + gen:
+        for quoted in (False, True):
+            hdrs, body = response(chunks, ridx, 40, "mp", boundary=b, style=rng.choice(["plain", "both", "lower"]), quoted=quoted)
+            for parts in ("w", "k1", "k11"):
+                c = Case("bchars=%s:q=%d:%s" % (b.hex(), quoted, parts), chunks, ridx, body, parts, hdrs=hdrs, opts=["auto"],
+                         kind="bchars", group="bc:%s:%d" % (b.hex(), quoted))
+                c.meta_boundary = b
+                c.expect = expect_for(c)
+                cases.append(c)
+    # ---- (J) a part larger than 32 KiB whose header is cut, followed by one big fragment: the stored unfinished header
+    # (k bytes) is merged with a fragment of 1 / 16384 / 32767-k / 32768-k / 32769-k bytes / everything that is left
+    for bi in range(1 if not thorough else 4):
+        L = rng.randrange(33000, 34000) if not thorough else rng.randrange(33000, 70001)
+        chunks = [(30, 0, rng.randrange(1, 1 << 30)), (20, 1, rng.randrange(1, 1 << 30)), (L, 0, rng.randrange(1, 1 << 30)),
+                  (25, 0, rng.randrange(1, 1 << 30))]
+        ridx, _ = auto_ridx(chunks, 64)
+        b = rng.choice([b"bigPart_0001", b"big(part)+1"])
+        hdrs, body = response(chunks, ridx, 64, "mp", boundary=b, style="ctype_before")
+        d2 = prng(chunks[2][2], 16)
+        hs = body.index(b"\r\n--" + b + b"\r\n", 10)          # start of the second part header = end of part 1 data
+        he = body.index(d2)                                       # first payload byte of part 2 (blank line ends here)
+        offs = list(range(hs + 1, he + 5))
+        special = {hs + 1, hs + 2, (hs + he) // 2, he - 4, he - 1, he, he + 1, he + 2, he + 3, he + 4}
+        for T in offs:
+            k = T - hs
+            sizes = ["rest"]
+            if T in special or thorough:
+                sizes += [1, 16384, 32767 - k, 32768 - k, 32769 - k]
+            else:
+                sizes.append([1, 16384, 32767 - k, 32768 - k, 32769 - k][T % 5])
+            for sz in sizes:
+                cuts = [T]
+                if sz != "rest":
+                    p2 = T + sz
+                    while p2 < len(body):
+                        cuts.append(p2)
+                        p2 += 16384
+                c = Case("bigpart:%d:cut=%d:k=%d:next=%s" % (bi, T, k, sz), chunks, ridx, body, "c" + ".".join(map(str, cuts)),
+                         doff=64, hdrs=hdrs, opts=["auto"], kind="bigpart", group="bigpart:%d" % bi)
+                c.expect = expect_for(c)
+                cases.append(c)
     # ---- (H) sessions: broken transfer -> zck_dl_reset -> retry
     cases += gen_sessions(tier, rng)
     return cases
@@ -745,7 +799,10 @@ def run(res, tier, only_case=None):
                 "multipart/byteranges; 14 boundary strings (4 plain, 10 with ERE metacharacters) x 9 part-header spellings x "
                 "quoted/unquoted; payload corruption at every requested chunk; each response fed whole, byte by byte, in "
                 "k-byte pieces and at every single cut; all 1- and 2-cut partitions of small responses; sampled k-cut "
-                "partitions (pieces <= 16384) of 100-300 KB responses; sessions on one zckDL: the first response cut at EVERY byte "
+                "partitions (pieces <= 16384) of 100-300 KB responses; boundaries over the whole RFC 2046 bchars alphabet with 0..8 "
+                "of the ERE metacharacters ( ) + . ?, quoted and unquoted; a part > 32 KiB whose header is cut at every offset (and 0..4 "
+                "bytes past its blank line) followed by a fragment of 1 / 16384 / 32767-k / 32768-k / 32769-k bytes / all the rest "
+                "(k = bytes of the unfinished header kept between the calls); sessions on one zckDL: the first response cut at EVERY byte "
                 "position (inside chunks, part headers, delimiters, at chunk ends), zck_dl_reset + zck_get_missing_range, then "
                 "the complete response for what is still missing; two broken transfers in a row. non-trivial = a (response, partition) pair with at "
                 "least one cut, counted per partition inside the exhaustive sweeps")
